@@ -121,6 +121,20 @@ def run_case(case, cnt=None, root=None):
         if case["fault"] in ("second-link",):
             names = host["linked"]
         where = rnd.choice(names)
+        if rnd.random() < 0.12 and case["fault"] not in ("second-link",):
+            # two included files with the SAME name in different directories, each included by a file of its own directory with the
+            # same operand text; the fault sits in the one that is included later
+            host["texts"]["same7.mac"] = ["\tnop", "\t.even", "\t.word 1"]
+            host["texts"]["drv/same7.mac"] = ["\tclr r0", "\t.even", "\t.word 2, 3", "\t.even", "\tnop"]
+            host["texts"]["drv/outer7.mac"] = ["\tnop", "\t.include \"same7.mac\"", "\t.even"]
+            main_lines = host["texts"][host["linked"][0]]
+            slots = clicase.top_level_slots(main_lines)
+            a = rnd.choice(slots)
+            main_lines[a:a] = ["\t.include \"same7.mac\"", "\t.even"]
+            b = rnd.choice([x for x in clicase.top_level_slots(main_lines) if x > a + 1] or [len(main_lines)])
+            main_lines[b:b] = ["\t.include \"drv/outer7.mac\"", "\t.even"]
+            host["included"] += ["same7.mac", "drv/same7.mac", "drv/outer7.mac"]
+            where = "drv/same7.mac"
         rec = clicase.plant(host, rnd, f, where=where)
         fileclass = "main" if where == host["linked"][0] else ("linked" if where in host["linked"] else "included")
         tag = f"{case['fault']}|{fileclass}|{'tab' if chr(9) in indent else ('space' if indent else 'none')}"
